@@ -79,6 +79,16 @@ def rule_ab(ctx: Context, R: Reporter, fin: FuncInfo, run: FuncInfo, wfn: FuncIn
                     wparam = n.id
     if wparam is None:
         raise AnalysisError("C05.a: weights parameter of the finalising function not identified")
+    # the recorded values are the received ones: no parameter is re-bound before it is written
+    fflow = flow_of(fin.node)
+    for a in ctx.state.in_func(fin, include_nested=False):
+        if a.mode == "write" and a.key in ("beta", "logz", "ess") and isinstance(a.value, ast.Name):
+            wn = fflow.node_containing(a.call)
+            rebound = [d for d in fflow.reaching(wn, a.value.id) if d.kind != "param"]
+            R.check("C05.a", f"the finalising function records `{a.key}` as received", not rebound, fin, a.call,
+                    msg=f"{fin.short}: `{a.value.id}` is re-bound ({'; '.join(norm_text(d.stmt)[:60] for d in rebound if d.stmt is not None)}) before it is written to `{a.key}`: "
+                        f"the recorded {a.key} is no longer the value at which the weights, ESS and logZ passed in were computed",
+                    key=f"finalizer-records-param:{a.key}")
     seen: Dict[tuple, Tuple[bool, str, Event]] = {}
     n_calls = 0
     for (rv, events, facts) in results:
@@ -242,6 +252,22 @@ def rule_c(ctx: Context, R: Reporter, fin: FuncInfo, run: FuncInfo, wfn: FuncInf
                 msg=f"{run.short}: `{unparse(call)[:70]}` passes a target whose provenance is the constructor argument(s) {sorted(fields)}"
                     + (f": {bad} is not the ESS target -- in volume-variation mode the ESS limit on the advance disappears" if bad else ""),
                 witness={"origins": [repr(o) for o in origs][:6]}, key="ess-limit-target")
+        # ... and it is exactly their product (a truncated/rounded target lowers the ESS floor)
+        rx = ExprResolver(run.node).resolve(arg, at) if arg is not None else None
+        core = rx
+        while isinstance(core, ast.Call) and isinstance(core.func, ast.Name) and core.func.id == "float" and len(core.args) == 1:
+            core = core.args[0]
+        is_prod = (isinstance(core, ast.BinOp) and isinstance(core.op, ast.Mult)
+                   and {norm_text(core.left), norm_text(core.right)} == {"self.ess_ratio", "self.n_particles"})
+        if ok and not is_prod:
+            lossy = [c for c in ast.walk(rx) if isinstance(c, ast.Call) and (unparse(c.func).split(".")[-1] in ("int", "round", "floor", "ceil", "trunc", "rint", "around", "max", "min", "maximum", "minimum", "clip"))]
+            if not lossy:
+                raise AnalysisError(f"C05.c: cannot decide whether `{unparse(rx)[:80]}` equals ess_ratio * n_particles")
+            R.check("C05.c", "the ESS target is exactly ess_ratio * n_particles", False, run, call,
+                    msg=f"{run.short}: the target handed to the ESS-limit search is `{unparse(rx)[:80]}`, not ess_ratio * n_particles: rounding/clamping the target lets the advance "
+                        f"stop at a temperature whose ESS is below the configured fraction", key="ess-limit-target-exact")
+        elif ok:
+            R.check("C05.c", "the ESS target is exactly ess_ratio * n_particles", True, run, call, key="ess-limit-target-exact")
     R.floor("C05.c", "call sites of the ESS-limit search", n_sites, 1)
     # two-mode bisection table
     n_tab = 0
@@ -510,6 +536,59 @@ def rule_e(ctx: Context, R: Reporter, fin: FuncInfo, run: FuncInfo):
             msg=f"{run.short}: `iter` is not set to get_current('iter') + 1 exactly once on every path", key="iter-plus-one")
 
 
+def _beta_tests(ctx: Context, fi: FuncInfo):
+    """Branch tests of `fi` whose (resolved) condition compares the current beta
+    (read from the state) with something."""
+    flow = flow_of(fi.node)
+    rs = ExprResolver(fi.node)
+    out = []
+    for nd in flow.cfg.stmt_nodes():
+        if nd.kind != "test" or nd.ast is None:
+            continue
+        for (atom, pol) in split_cond(nd.ast, True):
+            rx = rs.resolve(atom, nd)
+            reads = [c for c in ast.walk(rx) if isinstance(c, ast.Call) and isinstance(c.func, ast.Attribute) and c.func.attr == "get_current"
+                     and const_value(call_arg(c, 0, "key")) == "beta"]
+            if reads and isinstance(rx, ast.Compare) and len(rx.ops) == 1:
+                out.append((nd, atom, rx))
+    return out
+
+
+def rule_f(ctx: Context, R: Reporter, fin: FuncInfo, run: FuncInfo):
+    """All steps of one iteration agree on what the prior-sampling (warm-up)
+    phase is: the branch predicate on the current beta is `beta == 0.0` in each
+    of them. With `beta < tol` in one step only, an iteration at 0 < beta < tol
+    is treated as warm-up by that step (prior draws replace tempered particles,
+    or clustering/resampling is skipped) and as a tempering iteration by the others."""
+    pipe = pipeline_fn(ctx, run)
+    step_funcs = []
+    for (c, tg) in ctx.cg.sites.get(pipe.qualname, []):
+        for t in tg:
+            if isinstance(t, FuncInfo) and t.cls is not None and t.cls is not pipe.cls and t.name == "run" and t not in step_funcs:
+                step_funcs.append(t)
+    R.floor("C05.f", "step run methods called by the pipeline", len(step_funcs), 4)
+    n = 0
+    for f in step_funcs:
+        for (nd, atom, rx) in _beta_tests(ctx, f):
+            # orient: beta on the left
+            l, r, op = rx.left, rx.comparators[0], type(rx.ops[0]).__name__
+            if not (isinstance(l, ast.Call) and isinstance(l.func, ast.Attribute) and l.func.attr == "get_current"):
+                l, r = r, l
+                op = {"Lt": "Gt", "Gt": "Lt", "LtE": "GtE", "GtE": "LtE"}.get(op, op)
+            if not (isinstance(l, ast.Call) and isinstance(l.func, ast.Attribute) and l.func.attr == "get_current"):
+                raise AnalysisError(f"C05.f: {f.short}: cannot read the predicate `{unparse(rx)}` on the current beta")
+            cv = const_value(r)
+            if f is run and not (cv in (0, 0.0) and op in ("Eq", "NotEq", "LtE", "Lt", "Gt", "GtE")):
+                continue  # the reweighting step also compares beta with 1 / tolerances: C05.d, C12.a
+            n += 1
+            ok = op in ("Eq", "NotEq") and cv in (0, 0.0) and cv is not False
+            R.check("C05.f", f"{f.short}: the warm-up phase is exactly `beta == 0`", ok, f, atom,
+                    msg=f"{f.short}: branches on `{unparse(rx)[:70]}`; the other steps treat exactly beta == 0.0 as the prior-sampling phase, so an iteration at a small positive beta is "
+                        f"handled as warm-up here (e.g. tempered particles replaced by prior draws, or resampling/clustering skipped) and as a tempering iteration elsewhere",
+                    key=f"warmup-predicate:{f.short}")
+    R.floor("C05.f", "warm-up predicates in the step run methods", n, 3)
+
+
 def run(ctx: Context, R: Reporter):
     fin = finalizer(ctx)
     rw = reweight_run(ctx, fin)
@@ -518,6 +597,7 @@ def run(ctx: Context, R: Reporter):
     R.guard(rule_c, ctx, R, fin, rw, wfn)
     R.guard(rule_d, ctx, R, fin, rw)
     R.guard(rule_e, ctx, R, fin, rw)
+    R.guard(rule_f, ctx, R, fin, rw)
 
 
 def variants():
@@ -539,6 +619,12 @@ def variants():
         Variant("d-not-midpoint", "bad", replace_expr(rw, "Reweighter._find_beta_upper_limit", "(beta_high + beta_low) * 0.5", "(beta_high + beta_low) * 0.75"), ["C05.d"]),
         Variant("d-bracket-starts-at-zero", "bad", replace_stmt(rw, "Reweighter._find_beta_upper_limit", "beta_low = beta_current", "beta_low = 0.0"), ["C05.d", "C05.c"]),
         Variant("d-search-from-zero", "bad", replace_expr(rw, "Reweighter.run", "self._find_beta_upper_limit(beta_prev, ess_max)", "self._find_beta_upper_limit(0.0, ess_max)"), ["C05.d"]),
+        Variant("c-target-truncated", "bad", replace_stmt(rw, "Reweighter.run", "ess_max = self.ess_ratio * self.n_particles", "ess_max = int(self.ess_ratio * self.n_particles)"), ["C05.c"], quick=True),
+        Variant("c-target-float-benign", "benign", replace_stmt(rw, "Reweighter.run", "ess_max = self.ess_ratio * self.n_particles", "ess_max = float(self.n_particles * self.ess_ratio)")),
+        Variant("a-finalizer-snaps-beta", "bad", insert_before(rw, "Reweighter._finalize_iteration", "weights = weights / np.sum(weights)", "if 1.0 - beta < self.BETA_TOLERANCE:\n    beta = 1.0"), ["C05.a"], quick=True),
+        Variant("f-mutate-warmup-tolerance", "bad", replace_expr("tempest/steps/mutate.py", "Mutator.run", "beta == 0.0", "beta < 1e-4"), ["C05.f"], quick=True),
+        Variant("f-resample-warmup-tolerance", "bad", replace_expr("tempest/steps/resample.py", "Resampler.run", "beta == 0.0", "beta <= 1e-6"), ["C05.f"]),
+        Variant("f-train-warmup-flipped-benign", "benign", replace_expr("tempest/steps/train.py", "Trainer.run", "beta_val == 0.0", "0.0 == beta_val")),
         Variant("e-mutate-writes-beta", "bad", insert_before("tempest/steps/mutate.py", "Mutator.run", "calls = self.state.get_current('calls') + mcmc_calls", "self.state.set_current('beta', min(1.0, beta))"), ["C05.e"], quick=True),
         Variant("e-resample-before-train", "bad", _swap_calls(core), ["C05.e"]),
         Variant("e-train-stale-weights", "bad", replace_stmt(core, "SamplerCore.execute_iteration", "mode_stats = self.trainer.run(weights)", "mode_stats = self.trainer.run(np.ones_like(weights) / len(weights))"), ["C05.e"]),
